@@ -48,6 +48,7 @@ type spec struct {
 	domain       func(sel func(slot string) string) status
 	ctx          []string // decode-context fields handed to the receiver
 	strictPrefix bool     // false: optional tail, prefix verdicts observed only
+	noHeader     bool     // not a handshake message: the encoding has no type+uint24 length header
 }
 
 func a(name string, st status, cost int, kvs ...any) alt {
@@ -701,7 +702,7 @@ func allSpecs() []*spec {
 	}})
 
 	// sessionState (tls/ticket.go): vers, suite, createdAt u64, master_secret<1..2^16-1>, certificate_list<0..2^24-1>
-	specs = append(specs, &spec{name: "sessionState", strictPrefix: true, ctx: []string{"usedOldKey"}, slots: []slot{
+	specs = append(specs, &spec{name: "sessionState", strictPrefix: true, noHeader: true, ctx: []string{"usedOldKey"}, slots: []slot{
 		u16slot("vers", "vers", 0x0303, 0, 1, 0xffff, 0x0102),
 		u16slot("cipherSuite", "cipherSuite", 0xc02f, 0, 1, 0xffff, 0x0102),
 		u64slot("createdAt", "createdAt"),
@@ -719,7 +720,7 @@ func allSpecs() []*spec {
 	}})
 
 	// sessionStateTLS13 (tls/ticket.go): suite, createdAt u64, resumption_master_secret<1..2^8-1>, CertificateEntry list
-	specs = append(specs, &spec{name: "sessionStateTLS13", capacity: extCap, strictPrefix: true,
+	specs = append(specs, &spec{name: "sessionStateTLS13", capacity: extCap, strictPrefix: true, noHeader: true,
 		domain: leafExtDomain("certificates", "ocspStaple", "scts"),
 		slots: []slot{
 			u16slot("cipherSuite", "cipherSuite", 0x1301, 0, 1, 0xffff, 0x0102),
